@@ -977,7 +977,7 @@ func (c *Ctx) Select(arr, i *Term) *Term {
 	if arr.Op == "constarr" {
 		return arr.Args[0]
 	}
-	if arr.Op == "ite" && (arr.Args[1].Op == "store" || arr.Args[2].Op == "store" || arr.Args[1].Op == "constarr" || arr.Args[2].Op == "constarr" || iteLeaves(arr, 9) <= 8) {
+	if arr.Op == "ite" && (arr.Args[1].Op == "store" || arr.Args[2].Op == "store" || arr.Args[1].Op == "constarr" || arr.Args[2].Op == "constarr" || (!i.HasBound && arr.Sort.Elem.Kind != KArray && iteLeaves(arr, 9) <= 8)) {
 		// reads are pushed through small ite trees as well, so that triggers of the form (select A k)
 		// in quantified facts match reads of a merged state
 		return c.Ite(arr.Args[0], c.Select(arr.Args[1], i), c.Select(arr.Args[2], i))
